@@ -49,7 +49,7 @@ def check(chk: Check) -> None:
     q = PARSER + '.list_names'
     fi = F.func(q)
     selft = ('param', om.self_param(F, q))
-    lex = ('attr', selft, 'lex')
+    lex = common.lexer_term(F, selft)
     paths = SymExec(F, fi).run()
     filt, loop, val = [], [], []
     n_yield = 0
